@@ -27,7 +27,15 @@ import itertools
 from zoneinfo import ZoneInfo
 
 from icalendar.cal import Calendar as ICalendar
-from icalendar.cal import Component, FreeBusy, component_factory
+from icalendar.cal import Component, FreeBusy
+
+try:
+    # icalendar >= 6: component_factory is a module
+    from icalendar.cal import ComponentFactory
+except ImportError:
+    from icalendar.cal import component_factory
+else:
+    component_factory = ComponentFactory()
 from icalendar.prop import vDDDTypes, vPeriod
 
 from . import davcommon, webdav
